@@ -2,6 +2,10 @@ import NavisModel.Model.Prune
 import NavisModel.Proofs.RerootLemmas
 import NavisModel.Proofs.PruneLemmas
 import NavisModel.Proofs.ExactPruneLemmas
+import NavisModel.Proofs.PruneExtLemmas
+import NavisModel.Proofs.GreedyLemmas
+import NavisModel.Proofs.ExactAWLemmas
+import NavisModel.Gen.Prune
 /-!
 # C12 — pruning keeps exactly the nodes its criterion defines
 
@@ -549,5 +553,487 @@ example : exactPrune ex2 len2 1 = [(1, -1, 0), (2, 1, 0), (5, 1, 1/10)] := by de
 /-- … and with a length function that is `0` everywhere every non-root is within `size = 0` of its
 tips: only the root survives. -/
 example : exactPrune ex2 (fun _ _ => 0) 0 = [(1, -1, 0)] := by decide +kernel
+
+
+/-! # Second pass: option handling, as-written loops, source facts (`Model/PruneExt.lean`, `Gen/Prune.lean`) -/
+open Navis.PruneX
+
+/-! ## 1. The operators, constants and index expressions of the *current* source are what the model hard-wires
+
+`Gen/Prune.lean` is re-extracted from navis on every run.  The theorems below instantiate the parametrised
+rules of `Model/PruneExt.lean` with the extracted facts and prove that the result *is* the hand-written
+model the other theorems are about; an edit of one of these facts makes the theorem stop checking. -/
+
+/-- The twig rule read off `_prune_twigs_simple`. -/
+def genTwigRule : Option TwigRule := do
+  let lc ← Cmp.ofName Gen.Prune.twigLenCmp
+  let fc ← Cmp.ofName Gen.Prune.twigForkCmp
+  pure { lenCmp := lc, forkCmp := fc, forkK := Gen.Prune.twigForkK, leafPos := Gen.Prune.twigLeafPos,
+         forkPos := Gen.Prune.twigForkPos, maskPos := Gen.Prune.twigMaskPos, dropTail := Gen.Prune.twigDropTail }
+
+/-- **`prune_twigs` as written selects exactly the model's twigs**: `seg_lengths <= size`, forks are
+`n_childs > 1`, `s[0]` is the leaf and the masked end, `s[-1]` the fork, `s[:-1]` is deleted. -/
+theorem gen_twig_rule_is_model (t : Table) (len : Int → Int → Nat) (size : Nat) (mask : Option (List Int)) :
+    genTwigRule.map (fun r => twigDeleteG r t len size mask) = some (twigDelete t len size mask) := by
+  have : genTwigRule = some twigRule0 := by decide
+  rw [this, Option.map_some, twigDeleteG_rule0]
+
+/-- … compared with `size` itself, which is also what navis-fastcore receives as threshold, and `size`
+went through `map_units`. -/
+theorem gen_twig_size :
+    Gen.Prune.twigLenRhs = "size" ∧ Gen.Prune.fcThreshold = "size" ∧ Gen.Prune.twigsMapsUnits = true
+    ∧ Gen.Prune.fcMaskUsesIsin = true ∧ Gen.Prune.boolMaskIndexesNodeIds = true := by decide
+
+/-- `recursive`: `True` means `inf`; each further round passes `recursive - 1`, the id mask, the same
+size, and works in place — i.e. `RecArg.norm` / `RecArg.step` / a constant mask. -/
+theorem gen_twig_recursion :
+    Gen.Prune.recTrueIsInf = true ∧ Gen.Prune.recDecrement = 1 ∧ Gen.Prune.recMask = "mask_nodes"
+    ∧ Gen.Prune.recInplace = "True" ∧ Gen.Prune.recSize = "size" := by decide
+
+/-- `prune_twigs` dispatches on `exact` and forwards every relevant argument; defaults. -/
+theorem gen_twig_dispatch :
+    Gen.Prune.inexactCallee = "_prune_twigs_simple" ∧ Gen.Prune.exactCallee = "_prune_twigs_precise"
+    ∧ (∀ a ∈ ["size=size", "mask=mask", "inplace=inplace", "recursive=recursive"], a ∈ Gen.Prune.inexactArgs)
+    ∧ (∀ a ∈ ["size=size", "mask=mask", "inplace=inplace"], a ∈ Gen.Prune.exactArgs)
+    ∧ (∀ d ∈ [("exact", "False"), ("mask", "None"), ("inplace", "False"), ("recursive", "False")], d ∈ Gen.Prune.twigsDefaults) := by
+  decide
+
+/-- `_prune_twigs_precise`: a node is in range when its **farthest** distal tip is within `size`
+(`cutoff=size`, `max`), rows go when their **parent** is in range, the remainder is `size - max_len`, a
+tip is dropped when its edge is **shorter** (`<`) than the remainder, otherwise moved from its own
+position towards the parent — the ingredients of `exactPrune`. -/
+theorem gen_exact_rule :
+    Gen.Prune.exactCutoff = "size" ∧ Gen.Prune.exactWeight = "weight" ∧ Gen.Prune.exactReversed = true
+    ∧ Gen.Prune.exactKeepColumn = "parent_id" ∧ Gen.Prune.exactAggregate = "max"
+    ∧ Gen.Prune.exactRemainderOp = "Sub" ∧ Gen.Prune.exactRemainderLeft = "size" ∧ Gen.Prune.exactRemainderUsesMaxLen = true
+    ∧ Cmp.ofName Gen.Prune.exactRemoveCmp = some .lt ∧ Gen.Prune.exactRemoveRhs = "len_to_prune"
+    ∧ Gen.Prune.exactMove = [("Sub", "loc1", "loc2"), ("Sub", "loc1", "vec_norm*len_to_prune")]
+    ∧ Cmp.ofName Gen.Prune.exactSizeCmp = some .le := by decide
+
+/-- The index rule read off `prune_by_strahler`. -/
+def genSIRule : Option SIRule := do
+  let nc ← Cmp.ofName Gen.Prune.siNegCmp
+  let pc ← Cmp.ofName Gen.Prune.siPosCmp
+  if Gen.Prune.siNegRhs = 0 then
+    pure { negCmp := nc, negLo := Gen.Prune.siNegLo, negAdd := Gen.Prune.siNegAdd, posCmp := pc, posK := Gen.Prune.siPosK,
+           sliceLo := Gen.Prune.siSliceLo, sliceAdd := Gen.Prune.siSliceAdd }
+  else none
+
+/-- **The Strahler index arithmetic of the source is the model's**: negative `k` ↦ `range(1, max + (k + 1))`,
+`k < 1` raises, slices index `list(range(1, max + 1))`, ranges are turned into lists, rows whose
+`strahler_index` is in the list go. -/
+theorem gen_si_rule_is_model (mx : Int) (sel : SISelX) :
+    genSIRule.map (fun r => siListG r mx sel) = some (siListX mx sel) := by
+  have : genSIRule = some siRule0 := by decide
+  rw [this]; rfl
+
+theorem gen_si_facts :
+    Gen.Prune.siSliceIndexesList = true ∧ Gen.Prune.siRangeToList = true ∧ Gen.Prune.siFilterColumn = "strahler_index"
+    ∧ Gen.Prune.orphanParent = -1
+    ∧ (∀ d ∈ [("reroot_soma", "True"), ("force_strahler_update", "False"), ("relocate_connectors", "False"), ("inplace", "False")],
+        d ∈ Gen.Prune.siDefaults) := by decide
+
+/-- The Strahler column is recomputed iff it is missing or `force_strahler_update` (`siColumn`); the
+working copy is rerooted in place to its soma iff `reroot_soma` and there is one (`siTable`). -/
+theorem gen_si_guards :
+    Gen.Prune.siColumnGuard = ["'strahler_index' not in W.nodes", "force_strahler_update"]
+    ∧ Gen.Prune.siRerootGuard = ["not isinstance(W.soma, type(None))", "reroot_soma"]
+    ∧ Gen.Prune.siRerootTarget = "W.soma" ∧ Gen.Prune.siRerootInplace = true := by decide
+
+/-- Connector relocation walks the parent map **of the rerooted working copy** (`relocWalk` on `siTable`),
+starting at the connector's node's parent, while the node is `>= 0` and not among the survivors; both
+branches filter the connector table on surviving node ids (`connAfter`). -/
+theorem gen_relocation :
+    Gen.Prune.relocKey = "node_id" ∧ Gen.Prune.relocValue = "parent_id"
+    ∧ Gen.Prune.relocParentsFromWorkingCopy = true ∧ Gen.Prune.relocParentsAfterReroot = true
+    ∧ Gen.Prune.relocStart = "parent_dict[cn.node_id]"
+    ∧ Gen.Prune.relocWhile = ["this_tn >= 0", "this_tn not in remaining_tns"]
+    ∧ Gen.Prune.relocStep = ["this_tn = parent_dict[this_tn]"] ∧ Gen.Prune.relocAssigns = true
+    ∧ Gen.Prune.connFilters = 2 ∧ Gen.Prune.connFilterColumn = "node_id" := by decide
+
+/-- `prune_at_depth`: `depth < 0` raises, the default source is `x.root[0]`, an absent source raises, the
+distances are undirected with `limit=depth` from the source, finite entries of row 0 are kept;
+`geodesic_matrix` turns entries **strictly above** the limit into `inf` (so `dist == depth` is kept);
+`source` is zipped over a NeuronList. -/
+theorem gen_depth_rule :
+    Cmp.ofName Gen.Prune.depthNegCmp = some .lt ∧ Gen.Prune.depthNegRhs = 0
+    ∧ Gen.Prune.depthDefaultSource = "root" ∧ Gen.Prune.depthDefaultSourceIndex = 0 ∧ Gen.Prune.depthAbsentSourceRaises = true
+    ∧ Gen.Prune.depthGeoArgs = ["directed=False", "from_=source", "limit=depth"]
+    ∧ Cmp.ofName Gen.Prune.depthKeepCmp = some .lt ∧ Gen.Prune.depthKeepRow = "dist.values[0]"
+    ∧ Cmp.ofName Gen.Prune.limitCmp = some .gt ∧ Gen.Prune.limitValue = "np.inf" ∧ Gen.Prune.limitForwarded = "limit"
+    ∧ Gen.Prune.depthMustZip = ["source"] ∧ Gen.Prune.depthMapsUnits = true := by decide
+
+/-- … so the source's depth test is the model's (`pruneAtDepthX` is stated with the extracted operator). -/
+theorem gen_depth_is_model (t : Table) (len : Int → Int → Nat) (src : Option Int) (depth : Rat) :
+    (Cmp.ofName Gen.Prune.depthNegCmp).map (fun c => pruneAtDepthX c t len src depth) = some (pruneAtDepthX .lt t len src depth) := by
+  have : Cmp.ofName Gen.Prune.depthNegCmp = some .lt := by decide
+  rw [this]; rfl
+
+/-- `longest_neurite`: `n < 1` raises, segments are weighted by cable, an int takes `segments[:n]`, a slice
+`segments[n]`, `inverse` keeps the complement; `from_root=False` takes the maximum distance among root
+and end nodes with unreachable pairs set to `-1` and reroots there; defaults. -/
+theorem gen_longest_rule :
+    Cmp.ofName Gen.Prune.lnBadCmp = some .lt ∧ Gen.Prune.lnBadK = 1 ∧ Gen.Prune.lnSegWeight = "weight"
+    ∧ Gen.Prune.lnPicks = [":n:", "n"] ∧ Gen.Prune.lnInverseIsComplement = true ∧ Gen.Prune.lnInverseGuard = true
+    ∧ Gen.Prune.lnEndTypes = ["end", "root"] ∧ Gen.Prune.lnUnreachable = -1 ∧ Gen.Prune.lnUsesMax = true
+    ∧ Gen.Prune.lnRerootTargets = ["start", "x.soma"]
+    ∧ Gen.Prune.lnRerootGuard = ["not isinstance(x.soma, type(None))", "reroot_soma"]
+    ∧ (∀ d ∈ [("n", "1"), ("reroot_soma", "False"), ("from_root", "True"), ("inverse", "False"), ("inplace", "False")],
+        d ∈ Gen.Prune.lnDefaults) := by decide
+
+theorem gen_longest_is_model (segs : List (List Int)) (n : NArg) :
+    (Cmp.ofName Gen.Prune.lnBadCmp).map (fun c => pickSegs c Gen.Prune.lnBadK segs n) = some (pickSegs .lt 1 segs n) := by
+  have : Cmp.ofName Gen.Prune.lnBadCmp = some .lt := by decide
+  rw [this]; rfl
+
+/-- Every pruning function is mapped over NeuronLists (and accepts MeshNeurons through their skeleton);
+none holds the neuron lock. -/
+theorem gen_decorators :
+    (∀ ds ∈ [Gen.Prune.twigsDecorators, Gen.Prune.siDecorators, Gen.Prune.depthDecorators, Gen.Prune.lnDecorators,
+              Gen.Prune.cbfDecorators, Gen.Prune.fluffDecorators], "map_neuronlist" ∈ ds ∧ "lock_neuron" ∉ ds)
+    ∧ (∀ ds ∈ [Gen.Prune.twigsDecorators, Gen.Prune.siDecorators, Gen.Prune.depthDecorators, Gen.Prune.lnDecorators],
+        "meshneuron_skeleton" ∈ ds) := by decide
+
+/-- **The `TreeNeuron.prune_*` methods call the functions** with `inplace=True` on `self` or a copy, and
+forward every parameter they accept — except `TreeNeuron.prune_twigs`, which may drop `recursive` (open
+finding `TreeNeuron.prune_twigs/recursive-not-forwarded`; the statement tolerates exactly that gap, so it
+keeps checking when the method is repaired). -/
+theorem gen_methods_forward :
+    Gen.Prune.methods.map (fun m => (m.1, m.2.1)) =
+      [("prune_by_strahler", "prune_by_strahler"), ("prune_twigs", "prune_twigs"), ("prune_at_depth", "prune_at_depth"),
+       ("prune_by_longest_neurite", "longest_neurite"), ("cell_body_fiber", "cell_body_fiber"), ("prune_by_volume", "in_volume")]
+    ∧ (∀ m ∈ Gen.Prune.methods, "inplace=True" ∈ m.2.2.2.2)
+    ∧ (∀ m ∈ Gen.Prune.methods, ∀ p ∈ m.2.2.1, p ∈ m.2.2.2.1 ∨ (m.1 = "prune_twigs" ∧ p = "recursive"))
+    ∧ (∀ m ∈ Gen.Prune.methods, m.1 = "prune_by_strahler" → "reroot_soma=True" ∈ m.2.2.2.2) := by decide
+
+/-! ## 2. `recursive` -/
+
+/-- **`recursive` as `_prune_twigs_simple` consumes it** (`True` → `inf`; test, decrement, recurse) is:
+`False`/`0` one round, `k > 0` at most `k` further rounds, `True` / `inf` / negative `k` as many rounds as it
+takes (`|t|` always suffice). -/
+theorem prune_twigs_recursive_as_written (t : Table) (len : Int → Int → Nat) (size : Nat) (mask : Option (List Int)) (r : RecArg) :
+    pruneTwigsRec t len size mask r = pruneTwigs t len size mask (r.rounds t.length) :=
+  pruneTwigsRec_eq t len size mask r
+
+/-- With `recursive=True`, `inf` or a negative count **no** terminal branch of length `≤ size` with its leaf
+in the mask is left (the as-written loop reaches the fixpoint). -/
+theorem prune_twigs_recursive_fixpoint (t : Table) (len : Int → Int → Nat) (size : Nat) (mask : Option (List Int)) (r : RecArg)
+    (hr : r = .bool true ∨ r = .inf ∨ ∃ k, k < 0 ∧ r = .int k) :
+    twigDelete (pruneTwigsRec t len size mask r) len size mask = [] := by
+  rw [pruneTwigsRec_eq]
+  have : r.rounds t.length = t.length := by
+    rcases hr with rfl | rfl | ⟨k, hk, rfl⟩
+    · rfl
+    · rfl
+    · simp [RecArg.rounds, hk]
+  rw [this]
+  exact pruneTwigs_fixpoint t len size mask t.length (Nat.le_refl _)
+
+/-- A boolean mask selects the node ids at its `True` positions (and must be as long as the table). -/
+theorem maskIds_bools (t : Table) (b : List Bool) :
+    (b.length ≠ t.length → maskIds t (.bools b) = none) ∧
+    (b.length = t.length → ∃ l, maskIds t (.bools b) = some (some l) ∧ ∀ i, i ∈ l ↔ (i, true) ∈ (ids t).zip b) := by
+  unfold maskIds
+  constructor
+  · intro h; simp [h]
+  · intro h
+    refine ⟨((ids t).zip b).filterMap fun p => if p.2 then some p.1 else Option.none, by simp [h], ?_⟩
+    intro i
+    simp only [List.mem_filterMap]
+    constructor
+    · rintro ⟨⟨a, c⟩, hp, hq⟩
+      cases c <;> simp at hq
+      subst hq; exact hp
+    · intro hp
+      exact ⟨(i, true), hp, by simp⟩
+
+/-! ## 3. `prune_by_strahler` with all its options -/
+
+/-- **Keep-set, Strahler column, connectors**: the result is `subset` of the working table (rerooted to the soma
+when asked) by "Strahler value not in the list", where the value is the cached column unless it is missing or
+an update is forced; the connector table is `connAfter` on the working table. -/
+theorem strahlerX_keep_spec (t : Table) (o : SIOpts) (sel : SISelX) (cn : List (Int × Int)) (r : Table × List (Int × Int))
+    (h : pruneByStrahlerX t o sel cn = some r) :
+    ∃ l, siListX (((ids (siTable t o)).map (siColumn (siTable t o) o)).foldl max 0) sel = some l ∧
+      ids r.1 = (ids (siTable t o)).filter (fun i => !l.contains (siColumn (siTable t o) o i)) ∧
+      r.2 = connAfter (siTable t o) (ids r.1) o.relocate cn := by
+  obtain ⟨l, h1, h2, h3⟩ := pruneByStrahlerX_eq h
+  exact ⟨l, h1, by rw [h2]; exact ids_subset _ _, h3⟩
+
+/-- The result is a well-formed, correctly labelled forest whose ids are a sublist of the (rerooted) working
+table's — whatever the options. -/
+theorem strahlerX_WF (t : Table) (hw : WF t) (o : SIOpts) (sel : SISelX) (cn : List (Int × Int)) (r : Table × List (Int × Int))
+    (h : pruneByStrahlerX t o sel cn = some r) :
+    WF r.1 ∧ labelsOKB r.1 = true ∧ (ids r.1).Sublist (ids (siTable t o)) := by
+  obtain ⟨l, _, h2, _⟩ := pruneByStrahlerX_eq h
+  have hwt : WF (siTable t o) := by
+    unfold siTable
+    split
+    · exact WF_reroot hw _
+    · exact hw
+  rw [h2]
+  refine ⟨WF_subset hwt _, labelsOKB_subset _ _, ?_⟩
+  rw [ids_subset]; exact List.filter_sublist
+
+/-- The Strahler value used: the fresh index when there is no column or `force_strahler_update`, the
+(possibly stale) column otherwise. -/
+theorem siColumn_spec (t : Table) (o : SIOpts) :
+    ((o.col = none ∨ o.force = true) → ∀ i, siColumn t o i = (strahler t false [] i : Nat)) ∧
+    (∀ c, o.col = some c → o.force = false → ∀ i, siColumn t o i = lookupI c i 1) := by
+  unfold siColumn
+  constructor
+  · rintro (h | h) i
+    · rw [h]
+    · rw [h]; cases o.col <;> rfl
+  · intro c hc hf i
+    rw [hc, hf]
+
+/-- The working table: rerooted to the soma iff `reroot_soma` and a soma is set. -/
+theorem siTable_spec (t : Table) (o : SIOpts) :
+    (∀ s, o.rerootSoma = true → o.soma = some s → siTable t o = reroot t s) ∧
+    ((o.rerootSoma = false ∨ o.soma = none) → siTable t o = t) := by
+  unfold siTable
+  constructor
+  · intro s h1 h2; rw [h1, h2]
+  · rintro (h | h)
+    · rw [h]
+    · rw [h]; cases o.rerootSoma <;> rfl
+
+/-- Without options it is the first-pass model (`strahler_keep_spec` etc. apply). -/
+theorem strahlerX_plain (t : Table) (sel : SISel) :
+    (pruneByStrahlerX t { rerootSoma := false } (.ofSel sel) []).map (·.1) = pruneByStrahler t sel :=
+  pruneByStrahlerX_plain t sel
+
+/-- `range(a, b, s)`: `a, a+s, a+2s, …` strictly before `b` (either direction). -/
+theorem pyRange_spec (a b s x : Int) :
+    (0 < s → (x ∈ pyRange a b s ↔ ∃ k : Nat, x = a + k * s ∧ x < b)) ∧
+    (s < 0 → (x ∈ pyRange a b s ↔ ∃ k : Nat, x = a + k * s ∧ b < x)) :=
+  ⟨fun h => mem_pyRange_pos h, fun h => mem_pyRange_neg h⟩
+
+/-- **Slices with a step** on `list(range(1, max+1))`: the value `p + 1` is selected iff position `p` is, and
+the positions are those of CPython's slice normalisation — for `s > 0`: `lo ≤ p < hi`, `p ≡ lo (mod s)` with
+`lo, hi` the clamped bounds; for `s < 0`: `stop < p ≤ start`, `p ≡ start (mod -s)`. -/
+theorem siListX_slice_spec (mx : Nat) (a b : Option Int) (s : Int) (v : Int) :
+    ∃ l, siListX mx (.slice a b s) = some l ∧
+      (v ∈ l ↔ ∃ p ∈ sliceIdx mx a b s, v = (p : Int) + 1) ∧
+      (0 < s → ∀ p : Nat, p ∈ sliceIdx mx a b s ↔ p < mx ∧ clampPos mx a 0 ≤ (p : Int) ∧ (p : Int) < clampPos mx b mx ∧
+          ((p : Int) - clampPos mx a 0) % s = 0) ∧
+      (s < 0 → ∀ p : Nat, p ∈ sliceIdx mx a b s ↔ p < mx ∧ clampNeg mx b (-1) < (p : Int) ∧
+          (p : Int) ≤ clampNeg mx a ((mx : Int) - 1) ∧ (clampNeg mx a ((mx : Int) - 1) - (p : Int)) % (-s) = 0) := by
+  refine ⟨_, rfl, ?_, fun h p => mem_sliceIdx_pos h p, fun h p => mem_sliceIdx_neg h p⟩
+  show v ∈ pySlice (pyRange 1 ((mx : Int) + 1) 1) a b s ↔ _
+  rw [mem_pySlice]
+  have hlen : (pyRange 1 ((mx : Int) + 1) 1).length = mx := by rw [pyRange_one_length]; omega
+  rw [hlen]
+  constructor
+  · rintro ⟨p, hp, hg⟩
+    have hlt := mem_sliceIdx_lt hp
+    rw [pyRange_one_get _ _ _ (by omega)] at hg
+    exact ⟨p, hp, by simp only [Option.some.injEq] at hg; omega⟩
+  · rintro ⟨p, hp, rfl⟩
+    have hlt := mem_sliceIdx_lt hp
+    exact ⟨p, hp, by rw [pyRange_one_get _ _ _ (by omega)]; congr 1; omega⟩
+
+/-! ## 4. Connectors -/
+
+/-- **Connectors on removed nodes are dropped** (and nothing else happens to the table) when relocation is off. -/
+theorem connectors_dropped (t : Table) (kept : List Int) (cn : List (Int × Int)) (c : Int × Int) :
+    c ∈ connAfter t kept false cn ↔ c ∈ cn ∧ c.2 ∈ kept :=
+  mem_connAfter_drop
+
+theorem connectors_dropped_sublist (t : Table) (kept : List Int) (cn : List (Int × Int)) :
+    (connAfter t kept false cn).Sublist cn := by
+  unfold connAfter
+  simp only [Bool.not_false, if_true]
+  exact List.filter_sublist
+
+/-- **…or moved to the nearest surviving ancestor**: with relocation the as-written parent walk puts a
+connector of a removed node on the first kept node of its root path; connectors of kept nodes stay; a
+connector without a surviving ancestor is dropped. -/
+theorem connectors_relocated (t : Table) (hw : WF t) (kept : List Int) (hk : ∀ m ∈ kept, m ∈ ids t)
+    (cn : List (Int × Int)) (c : Int × Int) :
+    c ∈ connAfter t kept true cn ↔
+      ∃ n, (c.1, n) ∈ cn ∧ ((n ∈ kept ∧ c.2 = n) ∨ (n ∉ kept ∧ relocate t kept n = some c.2)) :=
+  mem_connAfter_relocate hw hk
+
+/-! ## 5. `prune_at_depth` with its argument forms -/
+
+/-- Errors: negative depth, a source that is not a node, no root to default to. -/
+theorem depthX_errors (t : Table) (len : Int → Int → Nat) (src : Option Int) (depth : Rat) :
+    (depth < 0 → pruneAtDepthX .lt t len src depth = none) ∧
+    (∀ s, src = some s → s ∉ ids t → pruneAtDepthX .lt t len src depth = none) := by
+  unfold pruneAtDepthX
+  constructor
+  · intro h; simp [Cmp.evalRat, h]
+  · intro s hs hn
+    subst hs
+    have : (ids t).contains s = false := by simpa using hn
+    simp only [this]
+    split <;> simp
+
+/-- A given source with an integer depth is the first-pass model; `source=None` means the first root in
+table order; a non-integer depth acts as its floor (distances are integers). -/
+theorem depthX_spec (t : Table) (len : Int → Int → Nat) (depth : Rat) (hd : 0 ≤ depth) :
+    (∀ s, s ∈ ids t → pruneAtDepthX .lt t len (some s) depth = some (pruneAtDepth t len s depth.floor.toNat)) ∧
+    (∀ r rest, roots t = r :: rest → pruneAtDepthX .lt t len none depth = some (pruneAtDepth t len r depth.floor.toNat)) := by
+  have hn : ¬ depth < 0 := Rat.not_lt.mpr hd
+  unfold pruneAtDepthX
+  simp only [Cmp.evalRat, hn, decide_false, Bool.false_eq_true, if_false]
+  constructor
+  · intro s hs
+    have : (ids t).contains s = true := by simpa using hs
+    simp only [this, if_true, pruneAtDepthQ_floor t len s depth hd]
+  · intro r rest hr
+    simp only [hr, pruneAtDepthQ_floor t len r depth hd]
+
+theorem depthX_nat (t : Table) (len : Int → Int → Nat) (s : Int) (hs : s ∈ ids t) (d : Nat) :
+    pruneAtDepthX .lt t len (some s) (d : Rat) = some (pruneAtDepth t len s d) := by
+  have h0 : (0 : Rat) ≤ (d : Rat) := by exact_mod_cast Nat.zero_le d
+  have hn : ¬ (d : Rat) < 0 := Rat.not_lt.mpr h0
+  unfold pruneAtDepthX
+  have : (ids t).contains s = true := by simpa using hs
+  simp only [Cmp.evalRat, hn, decide_false, Bool.false_eq_true, if_false, this, if_true, pruneAtDepthQ_nat]
+
+/-! ## 6. `longest_neurite`: argument forms and the greedy criterion -/
+
+/-- `n ≥ 1` takes the first `n` segments, `n < 1` raises, a slice takes the positions of `sliceIdx`. -/
+theorem pickSegs_spec (segs : List (List Int)) :
+    (∀ n : Int, 1 ≤ n → pickSegs .lt 1 segs (.int n) = some (segs.take n.toNat)) ∧
+    (∀ n : Int, n < 1 → pickSegs .lt 1 segs (.int n) = none) ∧
+    (∀ a b s, pickSegs .lt 1 segs (.slice a b s) = some ((sliceIdx segs.length a b s).filterMap fun i => segs[i]?)) := by
+  refine ⟨?_, ?_, fun _ _ _ => rfl⟩
+  · intro n hn
+    have : ¬ n < 1 := by omega
+    simp [pickSegs, Cmp.evalInt, this, pySlice_take segs n (by omega)]
+  · intro n hn
+    simp [pickSegs, Cmp.evalInt, hn]
+
+/-- With the defaults (`from_root=True`, no rerooting) and `n ≥ 1` this is the first-pass model. -/
+theorem longestX_default (t : Table) (len : Int → Int → Nat) (n : Int) (hn : 1 ≤ n) (inv : Bool) (start : Int) :
+    longestNeuriteX t len {} start (.int n) inv = some (longestNeurite t len 0 n.toNat inv) := by
+  unfold longestNeuriteX
+  have ht : lnTable t {} start = t := rfl
+  simp only [ht]
+  rw [(pickSegs_spec (segments t len)).1 n hn]
+  simp only [Option.map_some]
+  unfold longestFromSegs longestNeurite
+  simp
+
+/-- **The greedy criterion** (`Greedy`): for every `k`, segment `k` starts at a tip that the earlier segments do
+not cover, is exactly the walk from that tip up to the first covered node (or the root), and no uncovered tip
+has a longer such walk — "the longest root-to-tip paths taken greedily".  The checker the driver evaluates on
+navis' own segment list decides it. -/
+theorem greedy_checker_sound_complete (t : Table) (len : Int → Int → Nat) (segs : List (List Int)) :
+    greedyOKB t len segs = true ↔ Greedy t len segs :=
+  greedyOKB_iff t len segs
+
+/-- **The segment list of the model *is* greedy**: on every well-formed forest with positive edge lengths,
+`segments` (the as-written model of `_generate_segments`: leafs by decreasing root distance, walks to the first
+visited node, sorted by length) satisfies the greedy criterion.  (With zero-length edges the sort may put a
+segment before the one it hangs on; the property quantifies away from such ties.) -/
+theorem segments_are_greedy (t : Table) (hw : WF t) (len : Int → Int → Nat) (hpos : PosLen t len) :
+    Greedy t len (segments t len) :=
+  segments_greedy hw hpos
+
+/-- **`longest_neurite(n)` keeps precisely the `n` longest root-to-tip paths taken greedily, or their
+complement**: for `n ≥ 1` the kept node set is the union (resp. the complement of the union) of a list of at most
+`n` segments that is greedy — all segments when there are fewer than `n`. -/
+theorem longest_keeps_n_greedy_paths (t : Table) (hw : WF t) (len : Int → Int → Nat) (hpos : PosLen t len)
+    (n : Int) (hn : 1 ≤ n) (inv : Bool) (start : Int) :
+    ∃ segs r, longestNeuriteX t len {} start (.int n) inv = some r ∧ Greedy t len segs ∧
+      segs = (segments t len).take n.toNat ∧
+      ids r = (ids t).filter (fun i => if inv then !segs.flatten.contains i else segs.flatten.contains i) := by
+  refine ⟨(segments t len).take n.toNat, _, longestX_default t len n hn inv start, (segments_greedy hw hpos).take _, rfl, ?_⟩
+  have := longest_keep_spec t len 0 n.toNat inv
+  simpa using this
+
+/-- **`drop_fluff` (skeletons)**: what the checker evaluated on navis' kept node set accepts — whole connected
+components only, none smaller than `keep_size`; without `n_largest` every component of at least `keep_size` nodes;
+with `n_largest` no kept component is smaller than an eligible one that was dropped. -/
+theorem drop_fluff_checker_sound (t : Table) (ks : Nat) (nl : Option Nat) (kept : List Int)
+    (h : dropFluffOKB t ks nl kept = true) :
+    (∀ r ∈ roots t, (∀ i ∈ component t r, i ∈ kept) ∨ (∀ i ∈ component t r, i ∉ kept)) ∧
+    (∀ r ∈ roots t, (∀ i ∈ component t r, i ∈ kept) → ks ≤ (component t r).length) ∧
+    (nl = none → ∀ r ∈ roots t, ks ≤ (component t r).length → ∀ i ∈ component t r, i ∈ kept) ∧
+    (∀ k, nl = some k → ∀ r ∈ roots t, ks ≤ (component t r).length →
+        (∀ i ∈ component t r, i ∈ kept) ∨
+        ∀ r' ∈ roots t, (∀ i ∈ component t r', i ∈ kept) → (component t r).length ≤ (component t r').length) :=
+  dropFluffOKB_sound h
+
+/-! ## 7. `exact=True` with a mask -/
+
+/-- **Refinement of the as-written in-range test**: `_prune_twigs_precise` puts a node "in range" when *every leaf
+distal to it* is within `size` of cable (`distal_to` + Dijkstra with `cutoff=size` on the reversed graph,
+`not_in_length` empty); in a well-formed forest that is exactly the height test of `exactPrune` — the farthest
+distal tip is within `size`. -/
+theorem exact_in_range_as_written (t : Table) (hw : WF t) (len : Int → Int → Nat) (size : Rat) (k : Int) (hk : k ∈ ids t) :
+    inRangeAW t len size k = decide (((heightOf t len (t.length + 1) k : Nat) : Rat) ≤ size) :=
+  inRangeAW_eq_height hw len size hk
+
+/-- Without a mask it is `exactPrune` (all `exact_*` theorems apply). -/
+theorem exactM_none (t : Table) (len : Int → Int → Nat) (size : Rat) :
+    exactPruneM t len size none = exactPrune t len size := exactPruneM_none t len size
+
+/-- **Only masked cable is touched**: a node with an unmasked node distal to it (or unmasked itself) keeps its row,
+unmoved. -/
+theorem exactM_unmasked_untouched (t : Table) (len : Int → Int → Nat) (size : Rat) (m : List Int) (n : Node) (hn : n ∈ t)
+    (h : allBelowMasked t (some m) n.id = false) : (n.id, n.parent, (0 : Rat)) ∈ exactPruneM t len size (some m) :=
+  exactPruneG_inadmissible hn h
+
+/-- **What every output row is** (with a mask): a row of the table; untouched (`τ = 0`) unless everything distal
+to it is masked and it is within `size` of its farthest tip — then it is a root (unmoved) or the new tip of the
+edge to a parent that is *not* such a node, moved so that (for a positive edge) exactly `size` of cable lies
+between it and its farthest original tip. -/
+theorem exactM_spec (t : Table) (len : Int → Int → Nat) (size : Rat) (mask : Option (List Int)) (i p : Int) (τ : Rat)
+    (hr : (i, p, τ) ∈ exactPruneM t len size mask) :
+    ∃ n ∈ t, n.id = i ∧ n.parent = p ∧
+      ((¬ (allBelowMasked t mask i = true ∧ ((heightOf t len (t.length + 1) i : Nat) : Rat) ≤ size) ∧ τ = 0) ∨
+       (p < 0 ∧ τ = 0) ∨
+       (allBelowMasked t mask i = true ∧ ((heightOf t len (t.length + 1) i : Nat) : Rat) ≤ size ∧ ¬ p < 0 ∧
+        ¬ (allBelowMasked t mask p = true ∧ ((heightOf t len (t.length + 1) p : Nat) : Rat) ≤ size) ∧
+        0 ≤ τ ∧ τ ≤ 1 ∧
+        (len i p ≠ 0 → ((heightOf t len (t.length + 1) i : Nat) : Rat) + τ * (len i p : Nat) = size))) := by
+  obtain ⟨n, hn, h1, h2, h3⟩ := mem_exactPruneG hr
+  simp only at h1 h2
+  subst h1; subst h2
+  refine ⟨n, hn, rfl, rfl, ?_⟩
+  rcases h3 with h | h | ⟨a1, a2, a3, a4, a5, a6⟩
+  · exact Or.inl h
+  · exact Or.inr (Or.inl h)
+  · refine Or.inr (Or.inr ⟨a1, a2, a3, a4, ?_⟩)
+    have hL0 : (0 : Rat) ≤ ((len n.id n.parent : Nat) : Rat) := by exact_mod_cast Nat.zero_le _
+    obtain ⟨t0, t1, t2⟩ := Navis.ExactPrune.tau_facts a2 hL0 a5
+    simp only at a6
+    rw [a6]
+    refine ⟨t0, t1, fun hne => t2 ?_⟩
+    intro h0; exact hne (by exact_mod_cast h0)
+
+/-! ### Non-vacuity (second pass) -/
+example : genTwigRule = some twigRule0 ∧ genSIRule = some siRule0 := by decide
+example : pruneTwigsRec ex2 len2 1 none (.bool true) = pruneTwigs ex2 len2 1 none 5 ∧
+    ids (pruneTwigsRec ex2 len2 1 none (.int 1)) = [1, 5] ∧ ids (pruneTwigsRec ex2 len2 1 none (.int 0)) = [1, 2, 5] ∧
+    ids (pruneTwigsRec ex2 len2 1 none (.int (-3))) = [1, 5] := by decide
+example : maskIds ex (.bools [true, false, true, false]) = some (some [1, 3]) ∧ maskIds ex (.bools [true]) = none := by decide
+example : pyRange 1 6 2 = [1, 3, 5] ∧ pyRange 5 0 (-2) = [5, 3, 1] ∧ pyRange 3 3 1 = [] := by decide
+example : siListX 5 (.slice none none (-1)) = some [5, 4, 3, 2, 1] ∧ siListX 5 (.slice none none 2) = some [1, 3, 5] ∧
+    siListX 5 (.slice (some (-2)) none 1) = some [4, 5] ∧ siListX 5 (.slice (some 3) (some 0) (-2)) = some [4, 2] ∧
+    siListX 5 (.int (-2)) = some [1, 2, 3] ∧ siListX 5 (.int 0) = none := by decide
+/-- relocation on `ex` (1 ← 2 ← {3, 4}): pruning Strahler index 1 keeps `[1, 2]`; the connectors of `3` and `4` move to `2`. -/
+example : (pruneByStrahlerX ex { relocate := true } (.int 1) [(100, 3), (101, 1), (102, 4)]).map (fun r => (ids r.1, r.2)) =
+    some ([1, 2], [(100, 2), (101, 1), (102, 2)]) ∧
+    (pruneByStrahlerX ex {} (.int 1) [(100, 3), (101, 1), (102, 4)]).map (·.2) = some [(101, 1)] := by decide
+/-- a stale cached column is used unless an update is forced -/
+example : (pruneByStrahlerX ex { col := some [(1, 1), (2, 2), (3, 2), (4, 2)] } (.int 1) []).map (fun r => ids r.1) = some [2, 3, 4] ∧
+    (pruneByStrahlerX ex { col := some [(1, 1), (2, 2), (3, 2), (4, 2)], force := true } (.int 1) []).map (fun r => ids r.1) = some [1, 2] := by
+  decide
+/-- rerooting to the soma first changes the Strahler indices (soma `3`: the leaf branch is then `4` and `1`) -/
+example : (pruneByStrahlerX ex { soma := some 3 } (.int 1) []).map (fun r => ids r.1) = some [2, 3] := by decide
+example : (pruneAtDepthX .lt ex (coordLen ex) none (7/2)).map ids = some [1, 2] ∧
+    pruneAtDepthX .lt ex (coordLen ex) (some 9) 3 = none ∧ pruneAtDepthX .lt ex (coordLen ex) (some 1) (-1) = none := by decide +kernel
+example : greedyOKB ex (coordLen ex) (segments ex (coordLen ex)) = true ∧
+    greedyOKB ex (coordLen ex) [[3, 2], [4, 2, 1]] = false ∧ greedyOKB ex (coordLen ex) [[3, 2, 1], [4, 2]] = false := by decide
+/-- masks with `exact=True`: only the masked twig `3` is cut; with `2` and `4` unmasked the fork cannot go -/
+example : exactPruneM ex (coordLen ex) 2 (some [3]) = [(1, -1, 0), (2, 1, 0), (3, 2, 2/3), (4, 2, 0)] ∧
+    exactPruneM ex (coordLen ex) 5 (some [2, 3]) = [(1, -1, 0), (2, 1, 0), (4, 2, 0)] := by decide +kernel
 
 end Navis.Props.C12
